@@ -65,6 +65,18 @@ def check(ctx, cfg):
     r6_no_hidden_state(ctx, cfg)
     r7_errors(ctx, cfg)
     r8_layering(ctx, cfg)
+    r9_overlay(ctx, cfg)
+
+
+def r9_overlay(ctx, cfg):
+    """premise shared with C06: "each message sees its predecessors' effects" needs the transaction view that the next
+    message reads through to answer from the pending writes of the same transaction: dual recording of every write,
+    point lookups consult the overlay first, range reads merge the overlay over the same window in the same order"""
+    from rules import C06
+    C06.r2(ctx, cfg, R="C01.R9")
+    C06.r4(ctx, cfg, R="C01.R9")
+    C06.r5(ctx, cfg, R="C01.R9")
+    C06.r6(ctx, cfg, R="C01.R9")
 
 
 def r8_layering(ctx, cfg):
